@@ -36,7 +36,9 @@ endif
 ifeq ($(FLAVOUR),cov)
   CC := clang
   CXX := clang++
-  FL := -O2 -g
+  # no vectorisation: clang's trace-loads/trace-stores pass skips vector accesses, so two adjacent flag stores that the SLP vectoriser
+  # merges into one 16-byte store would get no callback and never become a scheduling point (found with seed C18 round 9)
+  FL := -O2 -g -fno-slp-vectorize -fno-vectorize -fno-builtin-memset -fno-builtin-memcpy
   # only repository sources get the load/store callbacks (scheduling points on watched flags)
   COV := -fsanitize-coverage=trace-pc-guard,trace-loads,trace-stores
 endif
@@ -91,25 +93,25 @@ DRV_O  := $(call obj,$(DRV))
 
 .SECONDEXPANSION:
 # repo object rule: $(B)/repo/<path with __>.o  <-  $(REPO)/<path>
-$(B)/repo/%.c.o: $$(REPO)/$$(subst __,/,$$*).c
+$(B)/repo/%.c.o: $$(REPO)/$$(subst __,/,$$*).c $(V)/build.mk
 	@mkdir -p $(dir $@)
 	$(CC) $(CFLAGS) $(COV) -MMD -MP -c $< -o $@
-$(B)/repo/%.cpp.o: $$(REPO)/$$(subst __,/,$$*).cpp
+$(B)/repo/%.cpp.o: $$(REPO)/$$(subst __,/,$$*).cpp $(V)/build.mk
 	@mkdir -p $(dir $@)
 	$(CXX) $(CXXFLAGS) $(COV) -MMD -MP -c $< -o $@
 
 # verif-side objects (never get the coverage callbacks)
-$(B)/v/%.c.o: $(V)/%.c
+$(B)/v/%.c.o: $(V)/%.c $(V)/build.mk
 	@mkdir -p $(dir $@)
 	$(CC) $(CFLAGS) -MMD -MP -c $< -o $@
-$(B)/v/%.cpp.o: $(V)/%.cpp
+$(B)/v/%.cpp.o: $(V)/%.cpp $(V)/build.mk
 	@mkdir -p $(dir $@)
 	$(CXX) $(CXXFLAGS) -MMD -MP -c $< -o $@
 # verif-side TUs that #include repository sources and therefore want the callbacks too
-$(B)/vc/%.c.o: $(V)/%.c
+$(B)/vc/%.c.o: $(V)/%.c $(V)/build.mk
 	@mkdir -p $(dir $@)
 	$(CC) $(CFLAGS) $(COV) -MMD -MP -c $< -o $@
-$(B)/vc/%.cpp.o: $(V)/%.cpp
+$(B)/vc/%.cpp.o: $(V)/%.cpp $(V)/build.mk
 	@mkdir -p $(dir $@)
 	$(CXX) $(CXXFLAGS) $(COV) -MMD -MP -c $< -o $@
 
